@@ -243,6 +243,61 @@ def stateless_constructs(chk, repo, rule):
                             f"(sizes, reference dates) - later records are decoded with the first one's state", key=f"{mod.name}:{q}.{m}:stateful")
     if n == 0:
         raise AnalysisError("anchor vanished: no construct subclass with parse methods in the package")
+    # ... nor in what all records of one parse call share: the context's `_params` (parse-wide), `_root` and `_` (enclosing
+    # structs).  Its own context entries are per record; these are not.
+    SHARED = ("_params", "_root", "_", "_parsing", "_index")
+    for mod in repo.modules.values():
+        if mod.name.endswith(".testing"):
+            continue
+        for q, cls in mod.classes.items():
+            if not is_construct(mod, cls):
+                continue
+            for st in cls.body:
+                if not isinstance(st, ast.FunctionDef):
+                    continue
+                fi = mod.funcs.get(f"{q}.{st.name}")
+                if fi is None:
+                    continue
+                ctx_params = [p_ for p_ in fi.params if p_ in ("context", "ctx")]
+                if not ctx_params:
+                    continue
+
+                def shared_path(e, aliases):
+                    """does the access path ``e`` lead into a part of the context that outlives the record?"""
+                    cur = e
+                    through = False
+                    while isinstance(cur, (ast.Attribute, ast.Subscript)):
+                        if isinstance(cur, ast.Attribute) and cur.attr in SHARED:
+                            through = True
+                        if isinstance(cur, ast.Subscript) and isinstance(cur.slice, ast.Constant) and cur.slice.value in SHARED:
+                            through = True
+                        cur = cur.value
+                    if isinstance(cur, ast.Name):
+                        if cur.id in aliases:
+                            return True
+                        if cur.id in ctx_params:
+                            return through
+                    return False
+                aliases = set()
+                changed = True
+                while changed:
+                    changed = False
+                    for n_ in fi.own_nodes():
+                        if isinstance(n_, ast.Assign) and len(n_.targets) == 1 and isinstance(n_.targets[0], ast.Name) and n_.targets[0].id not in aliases and shared_path(n_.value, aliases):
+                            aliases.add(n_.targets[0].id)
+                            changed = True
+                bad = []
+                for kind, root, target, node in stores(repo, fi):
+                    if kind == "global_store" or isinstance(target, ast.Name):
+                        continue
+                    tgt = target.value if isinstance(target, (ast.Attribute, ast.Subscript)) and kind in ("attr_store", "item_store") else target
+                    probe = target if kind in ("attr_store", "item_store") else (target.value if isinstance(target, ast.Attribute) else target)
+                    inner = probe.value if isinstance(probe, (ast.Attribute, ast.Subscript)) else probe
+                    if shared_path(inner, aliases) or (isinstance(inner, ast.Name) and inner.id in aliases):
+                        bad.append(short(node, 60))
+                chk.require(not bad, rule, f"{mod.relpath}:{q}.{st.name}", f"{q}.{st.name} keeps nothing in the parse-wide part of the context",
+                            f"{q}.{st.name} stores into the part of the parse context that all records of one parse call share ({bad[:2]}): what the first record of a request leaves there "
+                            f"is used for every later record of that request, so the result depends on how many records are parsed at once (records_per_chunk)", key=f"{mod.name}:{q}.{st.name}:context-state")
 
 
 
@@ -264,6 +319,10 @@ def declared_multiplicities(chk, L, rule, keys):
             if e.name in SNIFFING:
                 chk.fail(rule, key, f"construct.{e.name} in the {key} layout: how many records are taken depends on whether the following bytes happen to parse, not on the declared count - "
                                     f"a record that follows (and parses) is swallowed, a blank one ends the sequence early; everything after it is decoded from the wrong bytes", key=f"{key}:{e.name}:sniffing")
+                continue
+            if e.name == "Pointer" and getattr(e, "from_end", False):
+                chk.fail(rule, key, f"construct.Pointer with a negative offset in the {key} layout: the record is read at a position counted from the END of the bytes that were received, "
+                                    f"not where the preceding records end - when the file is cut short (or records are missing) other bytes are decoded instead of the parse failing", key=f"{key}:Pointer:from-end")
                 continue
             raise
         chk.ok(rule, key, "no content-sniffing construct in the layout")
